@@ -68,6 +68,13 @@ class C04(SweepProp):
                'gap_models': ['flow'], 'n_ring_core': [2, 2, 3],
                'vel': (1.0, 8.0)}),
     ]
+    variants.append(
+        # multi-duct bundles whose (flowing) bypass gaps limit the step
+        (0.2, {'n_duct': [2, 3, 3], 'stagnant_byp_prob': 0.1,
+               'byp_ff': (0.003, 0.04), 'lowfi_prob': 0.0,
+               'gap_models': ['none', 'none', 'flow', 'no_flow'],
+               'n_ring_core': [1, 1, 2], 'vel': (0.5, 6.0),
+               'low_flow_prob': 0.1}))
     tick_kinds = ('region', 'power')
     max_ticks = 1500
     truncate = 400
